@@ -14,7 +14,7 @@ from .common import L
 
 ID = "C15"
 RUNS = {"quick": 16_000, "thorough": 300_000}
-BUDGET_S = {"quick": 60, "thorough": 800}
+BUDGET_S = {"quick": 120, "thorough": 800}
 CHUNK = 150
 RULE = ("each run draws a multi-agent (domain, problem) with 2-4 agents and a valid sequential plan of 1-12 steps (reference "
         "random walk; first argument of every action is the acting agent), writes it as a plan file with tape-chosen step "
